@@ -47,7 +47,7 @@ def _grid(spec):
     return np.linspace(0.05, 1.0, spec[1]).tolist(), False
 
 
-def states(tier, seed):
+def _states_base(tier, seed):
     out = []
     if tier == "quick":
         combos = itertools.product(["log", "linear"], [3], ["F2", "FL", "F3", "g1"], ["EM", "CC"], ["ZM-VFNS"], [0, 1])
@@ -101,6 +101,26 @@ def _predict(out, name, grid, i, pdf, order, part=0):
     if part == 2:  # cancellation-safe scale: sum of the absolute contributions
         return float(np.sum(np.abs(T[(order, 0, 0, 0)][0]) * np.abs(f)))
     return float(np.sum(v * f))
+
+
+def states(tier, seed):
+    """quick = the full base lattice; thorough = base lattice + the deep extension."""
+    base = _states_base("thorough", seed)
+    if tier == "quick":
+        return base
+    seen = {digest(s) for s in base}
+    return base + [s for s in _states_deep(seed) if digest(s) not in seen]
+
+
+def _states_deep(seed):
+    out = []
+    for fam, deg, k, p, sc, pto in itertools.product(["log", "lambert", "linear"], [2, 3, 4, 5], ["F2", "FL", "F3", "g1", "gL", "g4"], ["EM", "NC", "CC"], ["ZM-VFNS", "FFNS3"], [0, 1, 2]):
+        if p == "CC" and k in ("g1", "gL", "g4") or p == "EM" and k in ("F3", "gL", "g4"):
+            continue
+        if pto == 2 and sc == "FFNS3":
+            continue
+        out.append({"family": fam, "degree": deg, "kind": k, "process": p, "scheme": sc, "pto": pto, "heavyness": "total"})
+    return out
 
 
 def execute(st):
